@@ -62,7 +62,7 @@ func genC09(seed uint64, run int, tier string) *Plan {
 		PCTDepth: 1 + r.IntN(3),
 		ExpireMs: pick(r, int64(500), 5000, 60000),
 	}
-	p.Cfg.Fine = fineKnob(seed, 15, 3)
+	p.Cfg.Fine = fineTier(tier, seed, 15, 3)
 	trim := r.IntN(2) == 0
 	if trim {
 		p.Cfg.MinOplog = 1 + r.IntN(3)
@@ -107,7 +107,7 @@ func genC09(seed uint64, run int, tier string) *Plan {
 	nw := 1 + r.IntN(2)
 	for i := 0; i < nw; i++ {
 		tp := TaskPlan{Name: fmt.Sprintf("writer%d", i), Role: "writer"}
-		for n := 2 + r.IntN(8); n > 0; n-- {
+		for n := deepen(tier, seed, 2+r.IntN(8)); n > 0; n-- {
 			tp.Ops = append(tp.Ops, write())
 		}
 		p.Tasks = append(p.Tasks, tp)
@@ -122,7 +122,7 @@ func genC09(seed uint64, run int, tier string) *Plan {
 			tp.Ops = append(tp.Ops, Op{K: "sleep", Ms: int64(1 + r.IntN(1500))})
 		}
 		tp.Ops = append(tp.Ops, watch(""))
-		for n := 1 + r.IntN(8); n > 0; n-- {
+		for n := deepen(tier, seed, 1+r.IntN(8)); n > 0; n-- {
 			switch k := r.IntN(20); {
 			case k < 9:
 				tp.Ops = append(tp.Ops, Op{K: "next", N: 99, Ctx: "deadline", Ms: pick(r, int64(50), 700, 3000)})
